@@ -703,6 +703,252 @@ func Monitor(prop string, c Case, sch *Schema, obs []OpObs) []Failure {
 				add(tx.Line, "", "unexpected auto mutation after a transition that %s", "should not trigger one")
 			}
 		}
+	case "C06", "C13":
+		type subRec struct {
+			id     int
+			kind   string
+			p      []string
+			ctx    int
+			line   int
+			held   bool // condition has held since subscribing
+			baseClock []uint64
+			tick0  uint64
+		}
+		var subsL []*subRec
+		ctxDone := map[int]bool{}
+		disposed := false
+		var curActive []int
+		var curClock []uint64
+		var curQT uint64 = 1
+		for i := 0; i < n; i++ {
+			curClock = append(curClock, 0)
+		}
+		cond := func(sr *subRec, act map[int]bool, clk []uint64, qt uint64) bool {
+			at := func(i int) uint64 {
+				if i < len(clk) {
+					return clk[i]
+				}
+				return 0
+			}
+			switch sr.kind {
+			case "when":
+				for _, x := range parseList(sr.p[1]) {
+					if !act[x] {
+						return false
+					}
+				}
+				return true
+			case "whennot":
+				for _, x := range parseList(sr.p[1]) {
+					if act[x] {
+						return false
+					}
+				}
+				return true
+			case "whentime":
+				st, ts := parseList(sr.p[1]), parseList(sr.p[2])
+				for i := range st {
+					if i < len(ts) && at(st[i]) < uint64(ts[i]) {
+						return false
+					}
+				}
+				return true
+			case "whenticks", "whennext":
+				var st int
+				fmt.Sscan(sr.p[1], &st)
+				return at(st) >= sr.tick0
+			case "whenquery":
+				var st, mt int
+				fmt.Sscan(sr.p[1], &st)
+				fmt.Sscan(sr.p[2], &mt)
+				return at(st) >= uint64(mt)
+			case "whenqueue":
+				var t int
+				fmt.Sscan(sr.p[1], &t)
+				return qt >= uint64(t)
+			}
+			return false
+		}
+		newSub := func(req, out string, line int, clk []uint64) {
+			if out == "c" || out == "PANIC" || out == "bad" {
+				return
+			}
+			var id int
+			fmt.Sscan(out, &id)
+			for _, sr := range subsL {
+				if sr.id == id {
+					return // reused channel
+				}
+			}
+			p := strings.Split(req, ":")
+			sr := &subRec{id: id, kind: p[0], p: p, line: line}
+			ctxField := ""
+			switch p[0] {
+			case "when", "whennot", "whennext":
+				ctxField = p[2]
+			case "whentime", "whenticks", "whenquery", "whenargs":
+				ctxField = p[3]
+			}
+			if ctxField != "" && ctxField != "-" {
+				fmt.Sscan(ctxField, &sr.ctx)
+			}
+			var st int
+			switch p[0] {
+			case "whenticks":
+				var k int
+				fmt.Sscan(p[1], &st)
+				fmt.Sscan(p[2], &k)
+				if st < len(clk) {
+					sr.tick0 = clk[st] + uint64(k)
+				}
+			case "whennext":
+				fmt.Sscan(p[1], &st)
+				if st < len(clk) {
+					sr.tick0 = clk[st] + 1
+					if clk[st]%2 == 1 {
+						sr.tick0 = clk[st] + 2
+					}
+				}
+			case "statectx":
+				fmt.Sscan(p[1], &st)
+				if st < len(clk) {
+					sr.tick0 = clk[st]
+				}
+				sr.p = []string{"statectx", p[1]}
+			}
+			subsL = append(subsL, sr)
+		}
+		for li, o := range obs {
+			t := strings.Fields(o.Line)
+			if len(t) == 0 {
+				continue
+			}
+			switch t[0] {
+			case "ctx":
+				if len(t) > 2 && t[1] == "cancel" {
+					var k int
+					fmt.Sscan(t[2], &k)
+					ctxDone[k] = true
+				}
+				continue
+			case "dispose":
+				disposed = true
+			case "sub":
+				out := ""
+				for _, f := range strings.Fields(o.Out) {
+					if strings.HasPrefix(f, "ch=") {
+						out = f[3:]
+					}
+				}
+				if !disposed {
+					// condition already true at subscription => must be the closed channel
+					probe := &subRec{kind: strings.Split(t[1], ":")[0], p: strings.Split(t[1], ":")}
+					if probe.kind == "when" || probe.kind == "whennot" || probe.kind == "whentime" {
+						if cond(probe, setOf(curActive), curClock, curQT) && out != "c" {
+							add(li, "", "%s subscribed while its condition already held, but the channel is open", t[1])
+						}
+					}
+				}
+				newSub(t[1], out, li, curClock)
+				continue
+			}
+			if !o.IsOp && t[0] != "dispose" {
+				continue
+			}
+			// nested subscriptions and per-transition evaluation
+			handlerClock := curClock
+			isCheck := false
+			for i := range o.Events {
+				e := &o.Events[i]
+				switch e.Kind {
+				case "TI":
+					isCheck = e.IsCheck
+					handlerClock = e.TB
+				case "TF":
+					handlerClock = e.TA // final handlers see the applied clock
+				case "W":
+					newSub(e.HName, e.ResStr, li, handlerClock)
+				case "TE":
+					act := setOf(e.Active)
+					// conditions are judged at the end of accepted, non-check transitions
+					if e.Acc && !isCheck {
+						for _, sr := range subsL {
+							if sr.kind != "statectx" && sr.kind != "whenqueue" && cond(sr, act, e.TA, 0) {
+								sr.held = true
+							}
+						}
+					}
+					curClock = e.TA
+					handlerClock = e.TA
+				}
+			}
+			if o.IsOp {
+				curActive, curClock, curQT = o.Active, o.Clock, o.QTick
+			}
+			closed := setOf(o.Closed)
+			canceled := setOf(o.Canceled)
+			if t[0] == "dispose" {
+				// reparse the disposed line
+				for _, f := range strings.Fields(o.Out) {
+					if strings.HasPrefix(f, "cl=") {
+						closed = setOf(parseList(f[3:]))
+					}
+					if strings.HasPrefix(f, "xc=") {
+						canceled = setOf(parseList(f[3:]))
+					}
+				}
+			}
+			for _, sr := range subsL {
+				if sr.kind == "whenargs" || sr.kind == "whenqueueends" {
+					if disposed && prop == "C13" && !closed[sr.id] {
+						add(li, "", "channel %d (%s) still open after dispose", sr.id, sr.kind)
+					}
+					continue
+				}
+				if sr.kind == "statectx" {
+					var st int
+					fmt.Sscan(sr.p[1], &st)
+					changed := st < len(curClock) && curClock[st] != sr.tick0
+					if changed && !canceled[sr.id] && !disposed {
+						add(li, "", "state context %d of state %d alive although the tick changed", sr.id, st)
+					}
+					if !changed && canceled[sr.id] && !disposed {
+						add(li, "", "state context %d of state %d canceled although the tick did not change", sr.id, st)
+					}
+					if disposed && !canceled[sr.id] && prop == "C13" {
+						add(li, "", "state context %d still alive after dispose", sr.id)
+					}
+					continue
+				}
+				if sr.kind == "whenqueue" {
+					var tk int
+					fmt.Sscan(sr.p[1], &tk)
+					if curQT >= uint64(tk) && !closed[sr.id] && !disposed {
+						add(li, "C06-whenqueue-open-after-canceled-tx", "WhenQueue(%d) still open although the queue tick is %d", tk, curQT)
+					}
+					if curQT < uint64(tk) && closed[sr.id] && !disposed {
+						add(li, "", "WhenQueue(%d) closed although the queue tick is %d", tk, curQT)
+					}
+					if disposed && !closed[sr.id] && prop == "C13" {
+						add(li, "", "channel %d (whenqueue) still open after dispose", sr.id)
+					}
+					continue
+				}
+				if disposed {
+					if !closed[sr.id] && prop == "C13" {
+						add(li, "", "channel %d (%s) still open after dispose", sr.id, sr.kind)
+					}
+					continue
+				}
+				ctxGone := sr.ctx != 0 && ctxDone[sr.ctx]
+				if sr.held && !closed[sr.id] {
+					add(li, "", "lost wake-up: %s (channel %d) open although its condition held at the end of a transition", strings.Join(sr.p, ":"), sr.id)
+				}
+				if !sr.held && closed[sr.id] && !ctxGone {
+					add(li, "", "spurious wake-up: %s (channel %d) closed although its condition never held", strings.Join(sr.p, ":"), sr.id)
+				}
+			}
+		}
 	case "C08":
 		for li, o := range obs {
 			if o.Crash != "" {
